@@ -749,6 +749,112 @@ pub fn c04(ctx: &Ctx, rep: &mut Report) {
             }
         }
     }
+    // the real loader: files on disk (buffered reader) and stdin fed in small chunks, with
+    // programs large enough to straddle buffer windows
+    if ctx.shard < 8 {
+        let dir = ctx.scratch("c04");
+        let m = if ctx.quick() { 6 } else { 80 };
+        for i in 0..m {
+            let mut rng = ctx.rng("C04cli", i);
+            // executable program with long string constants
+            let mut src = String::new();
+            let k = 2 + rng.below(4);
+            for j in 0..k {
+                let mut f = String::new();
+                let len = [200usize, 3000, 8100, 8200, 9000, 17000, 40000][rng.below(7)];
+                while f.len() < len {
+                    f.push(match rng.below(12) {
+                        0 => 'é',
+                        1 => '語',
+                        2 => '👍',
+                        _ => (b'a' + (f.len() % 26) as u8) as char,
+                    });
+                }
+                src.push_str(&format!("print(\"{}:{} ~\\n\", {});\n", j, f, j));
+            }
+            let ast = match real::parse(&src) {
+                Ok(a) => a,
+                Err(_) => continue,
+            };
+            let prog = match altcc::compile(&ast, &mut rng) {
+                Ok(p) => p,
+                Err(_) => continue,
+            };
+            let bytes = bcfmt::write(&prog);
+            let vm = refvm::run_prog(&prog, 100_000);
+            if vm.status != refvm::Status::Halted {
+                continue;
+            }
+            let f = dir.join(format!("big{}.bc", i));
+            if std::fs::write(&f, &bytes).is_err() {
+                continue;
+            }
+            let replay = json!({"check":"C04","src": if src.len() < 30000 { src.clone() } else { String::new() }, "via": "cli-loader", "file_bytes": bytes.len()});
+            let chunk = [1usize, 7, 100, 511, 4096, 8191][rng.below(6)];
+            let runs = vec![
+                ("execute FILE", super::super::cli::run(super::super::cli::Spec::new(&["execute", f.to_str().unwrap()]))),
+                ("execute < chunked stdin", super::super::cli::run_chunked_stdin(super::super::cli::Spec::new(&["execute"]), &bytes, chunk.max(bytes.len() / 400), std::time::Duration::from_micros(150))),
+            ];
+            for (how, r) in runs {
+                rep.evaluations += 1;
+                if r.timed_out || r.spawn_error.is_some() {
+                    rep.skip("cli-watchdog");
+                    continue;
+                }
+                rep.conclusive += 1;
+                rep.count("cli_loader_runs", 1);
+                rep.bump("c04-source", "cli-loader");
+                if !r.success() || r.out_str() != vm.out {
+                    rep.violation(
+                        &format!("C04:cli-loader:{}", how.split(' ').next().unwrap_or("")),
+                        format!("`fml {}` on a {}-byte file in the documented layout: expected stdout of {} bytes and exit 0; observed exit={:?} signal={:?} stdout {} bytes, stderr {:?}", how, bytes.len(), vm.out.len(), r.code, r.signal, r.stdout.len(), super::super::cli::truncate(&r.err_str(), 200)),
+                        replay.clone(),
+                    );
+                }
+            }
+            // `fml compile -o FILE` over an existing, longer file must still leave exactly the layout
+            if i % 2 == 0 {
+                if let Ok(small) = real::parse("print(\"hello\\n\");\n") {
+                    if let (Ok(json_ast), Ok(expect)) = (crate::ASTSerializer::JSON.serialize(&small).map_err(|e| e.to_string()), real::compile(&small).and_then(|p| real::serialize(&p))) {
+                        let jf = dir.join(format!("small{}.json", i));
+                        let of = dir.join(format!("reused{}.bc", i));
+                        let _ = std::fs::write(&jf, &json_ast);
+                        let _ = std::fs::write(&of, &bytes); // the previous, longer output
+                        let c = super::super::cli::run(super::super::cli::Spec::new(&["compile", jf.to_str().unwrap(), "-o", of.to_str().unwrap()]));
+                        rep.evaluations += 1;
+                        if c.success() {
+                            rep.conclusive += 1;
+                            let got = std::fs::read(&of).unwrap_or_default();
+                            if got != expect {
+                                let why = match bcfmt::read(&got) {
+                                    Ok(_) => "a different program".to_string(),
+                                    Err(e) => e,
+                                };
+                                rep.violation("C04:output-file-reused", format!("`fml compile -o FILE` over an existing {}-byte file leaves {} bytes instead of {}: {}", bytes.len(), got.len(), expect.len(), why), json!({"check":"C04","via":"cli-output-reuse"}));
+                            }
+                        }
+                        let _ = std::fs::remove_file(&jf);
+                        let _ = std::fs::remove_file(&of);
+                    }
+                }
+            }
+            // the listing of the same big file through the real CLI
+            let d = super::super::cli::run(super::super::cli::Spec::new(&["disassemble", f.to_str().unwrap()]));
+            rep.evaluations += 1;
+            if !d.timed_out && d.spawn_error.is_none() {
+                rep.conclusive += 1;
+                match listing::parse(&d.out_str()).and_then(|l| l.to_prog()) {
+                    Ok(back) => {
+                        if back != prog {
+                            rep.violation("C04:cli-loader:disassemble", format!("`fml disassemble` of a {}-byte file shows a different program: {}", bytes.len(), describe_diff(&prog, &back)), replay.clone());
+                        }
+                    }
+                    Err(e) => rep.violation("C04:cli-loader:disassemble", format!("`fml disassemble` of a {}-byte file in the documented layout fails or is unreadable: {} ({})", bytes.len(), e, d.describe()), replay.clone()),
+                }
+            }
+            let _ = std::fs::remove_file(&f);
+        }
+    }
     if let Some((ast, src, _)) = ast_sources(ctx, "C04sample", 1) {
         if let Ok(p) = real::compile(&ast) {
             if let Ok(b) = real::serialize(&p) {
